@@ -62,9 +62,12 @@ Definition leap_steps : list Z := map unix_of_civil iers_leap_dates.
 
 Definition ns : Z := 1000000000.
 
+(* number of step instants (Unix seconds) not later than t (ns) *)
+Definition count_steps (steps : list Z) (t : Z) : Z :=
+  Z.of_nat (length (filter (fun s => s * ns <=? t) steps)).
+
 (* published GPS-UTC (seconds) at the UTC instant t (ns since the Unix epoch) *)
-Definition gps_minus_utc (t : Z) : Z :=
-  Z.of_nat (length (filter (fun s => s * ns <=? t) leap_steps)).
+Definition gps_minus_utc (t : Z) : Z := count_steps leap_steps t.
 
 (* the specification of the conversion *)
 Definition spec_to_gps (t : Z) : Z := t - unix_of_civil gps_epoch_civil * ns + gps_minus_utc t * ns.
